@@ -12,10 +12,11 @@ VFILE = "Props/C15.v"
 
 
 def targeted(ctx):
+    ctx.oracle("o_relations[corpus]", R.corpus)
     # numeric (exact-float) problems whose fully diagonalised block has a degenerate level and an unsorted diagonal
     for herm in (True, False):
         ctx.oracle("o_relations[numeric,degenerate unsorted fully-diagonalised block,hermitian=%s]" % herm, R.sweep,
-                   ("basis_perm", "relabel", "rotation", "shift", "conjugation"), ctx.n(6, 40),
+                   ("basis_perm", "relabel", "rotation", "shift", "conjugation", "pos_scale"), ctx.n(6, 40),
                    base.kw_for(ctx, herm, special="degnum"), parallel=True)
 
 
